@@ -231,7 +231,13 @@ def _contains_any(term, consts_ids, funcs_names):
                     return True
                 if d.arity() > 0 and d.name() in funcs_names:
                     return True
-                # Σ-functions: look into their definition bodies is unnecessary: parameters are explicit args
+                # Σ-functions: free constants of the summand are explicit arguments, but function symbols (array contents) stay
+                # inside the λ-lifted body: look into the definition
+                if d.arity() > 0 and funcs_names:
+                    from . import sigma as _sigma
+                    sd = _sigma.BY_DECL.get(d.name())
+                    if sd is not None:
+                        stack.append(sd.body)
             stack.extend(e.children())
     return False
 
@@ -259,6 +265,7 @@ def _symbolic_for(interp, s, frame, state, space, promoted=None):
     _, lo, hi, item_fn = space
     st = state
     where = f"{frame.fname}:{s.lineno}"
+    CONST_SUM_CLOSED[0] = bool((getattr(interp, "loop_opts", None) or {}).get("const_sum_closed"))
     key = (frame.fname, "for", _loop_ordinal(frame, s))
     # zero-trip: split on hi <= lo unless decided
     merged, zero_fork = False, None
@@ -337,6 +344,12 @@ def _symbolic_for(interp, s, frame, state, space, promoted=None):
                 raise EngineError(f"loop body leaves the loop ({kinds}) — needs a written summary")
     if len(normal) != 1:
         if not normal:
+            raises = [o for o in abnormal if o[2][0] == "raise"]
+            if raises and len(raises) == len(abnormal):
+                # every path of the body raises from an arbitrary (havocked) loop state, and the loop is entered (hi > lo was decided):
+                # the first iteration raises, so does the loop statement
+                del st.side[side_mark:]
+                raise PyRaise(raises[0][2][1], f"every path of the loop body raises ({raises[0][2][2]})")
             raise EngineError("loop body has no normal path")
         normal = [_merge_paths(normal, where, lenient=promoted is None)]
     fr1, st1 = normal[0]
@@ -366,6 +379,7 @@ def _symbolic_for(interp, s, frame, state, space, promoted=None):
             r = _symbolic_for(interp, s, frame, state, space, promoted=(fr_p, st_p, gmap, pre_env, pre_heap))
             st.side.extend(keep_side)
             return r
+    st_nh = st1     # post-state of the dry run from the un-havocked pre-heap (content after one iteration as a function of the pre content)
     touched = sorted({sid for sid in st1.heap if sid in pre_heap and st1.heap[sid] is not pre_heap[sid]})
     heap_h = dict(pre_heap)
     arr_h = {}
@@ -426,17 +440,68 @@ def _symbolic_for(interp, s, frame, state, space, promoted=None):
         if not any(_contains_any(t, hv_consts, hv_funcs) or _mentions(t, iz) for t in dts):
             closed = sv.add(pre_heap[sid].data["pos"], sv.mul(d, sv.sub(i, lo)))
             resolved.append((hp.t, sv.znum(closed)))
-    # ---- scalars
-    for name in modified:
-        if name in target_names:
-            continue
-        post = fr1.env.get(name, _MISSING)
-        if post is _MISSING:
-            continue
-        if resolved and sv.is_scalar(norm(post)):
-            post = _subst_val(post, resolved)
-        pre = pre_env.get(name, _MISSING)
-        summary_env[name] = _summarise_value(interp, name, pre, post, env_h.get(name, _MISSING), iz, lo, hi, hv_consts, hv_funcs, st1)
+    # ---- staged summarisation: every loop-carried scalar / array cell gets a closed form from the havocked dry run; a cell whose
+    # effect mentions the havocked content of *another* carried cell (e.g. a value computed from an array the same loop updates in
+    # place) is retried after a new dry run in which the already summarised cells hold their closed form at iteration i instead
+    # of a havoc.  (The closed forms are candidates only: the init/step obligations below check all of them together.)
+    pend_scal = [n for n in modified if n not in target_names]
+    pend_arr = list(arr_h)
+    fr_c, st_c = fr1, st1
+    for _stage in range(6):
+        errors = []
+        progress = False
+        for name in list(pend_scal):
+            post = fr_c.env.get(name, _MISSING)
+            if post is _MISSING:
+                pend_scal.remove(name)
+                continue
+            if resolved and sv.is_scalar(norm(post)):
+                post = _subst_val(post, resolved)
+            pre = pre_env.get(name, _MISSING)
+            try:
+                summary_env[name] = _summarise_value(interp, name, pre, post, env_h.get(name, _MISSING), iz, lo, hi, hv_consts, hv_funcs, st_c)
+            except EngineError as e:
+                errors.append(e)
+                continue
+            pend_scal.remove(name)
+            progress = True
+        for sid in list(pend_arr):
+            shape, dt, hfn = arr_h[sid]
+            idx = tuple(sv.fresh_int("x") for _ in shape)
+            postv = st_c.heap[sid].data(idx)
+            prev = hfn(idx)
+            if resolved:
+                # (not the cell's own counter: its increment is relative to its own previous content)
+                own = {t.get_id() for t in _terms_of(prev)}
+                res2 = [(a, b) for a, b in resolved if a.get_id() not in own]
+                if res2:
+                    postv = _subst_val(postv, res2)
+            try:
+                summary_heap[sid] = _summarise_array(sid, shape, dt, idx, prev, postv, iz, lo, hi, hv_consts, hv_funcs, pre_heap, interp.loop_opts,
+                                                     nohavoc_post=(st_nh.heap[sid].data if sid in st_nh.heap else None))
+            except EngineError as e:
+                errors.append(e)
+                continue
+            pend_arr.remove(sid)
+            progress = True
+        if not errors:
+            break
+        if not progress or other_touched or _stage == 5:
+            raise errors[0]
+        env2, heap2 = dict(env_h), dict(heap_h)
+        for name, summ in summary_env.items():
+            if summ[0] == "sum":
+                env2[name] = _instantiate(summ, i, iz, lo, pre_env.get(name, _MISSING))
+        for sid, summ in summary_heap.items():
+            heap2[sid] = summ(i)
+        outs = run_body(env2, heap2, i, [])
+        normal = [(fr, st2) for fr, st2, out in outs if out[0] in ("normal", "continue")]
+        if len(normal) != 1:
+            if not normal:
+                raise errors[0]
+            normal = [_merge_paths(normal, where)]
+        fr_c, st_c = normal[0]
+    fr1, st1 = fr_c, st_c
     # the loop target keeps its last value
     for name in target_names:
         if name in fr1.env:
@@ -445,15 +510,6 @@ def _symbolic_for(interp, s, frame, state, space, promoted=None):
                 summary_env[name] = ("last", post)
             else:
                 summary_env[name] = ("last_obj", post)
-    # ---- arrays
-    for sid, (shape, dt, hfn) in arr_h.items():
-        idx = tuple(sv.fresh_int("x") for _ in shape)
-        post_fn = st1.heap[sid].data
-        postv = post_fn(idx)
-        if resolved:
-            postv = _subst_val(postv, resolved)
-        prev = hfn(idx)
-        summary_heap[sid] = _summarise_array(sid, shape, dt, idx, prev, postv, iz, lo, hi, hv_consts, hv_funcs, pre_heap, interp.loop_opts)
     for sid in other_touched:
         if merged and pre_heap[sid].kind != "file":
             raise zero_fork
@@ -824,7 +880,7 @@ def _instantiate(summ, k, iz, lo, pre):
     kind = summ[0]
     if kind == "sum":
         delta = summ[1]
-        return sv.add(pre, Sum(lo, k, lambda t: _subst_val(delta, [(iz, sv.znum(t))])))
+        return sv.add(pre, _iter_sum(lo, k, delta, iz, []))
     if kind == "last":
         # value produced by iteration k-1
         return _subst_val(summ[1], [(iz, sv.znum(A.simp(sv.sub(k, 1))))])
@@ -833,7 +889,20 @@ def _instantiate(summ, k, iz, lo, pre):
     raise EngineError(kind)
 
 
-def _summarise_array(sid, shape, dt, idx, prev, postv, iz, lo, hi, hv_consts, hv_funcs, pre_heap, opts=None):
+CONST_SUM_CLOSED = [False]     # loop_opts "const_sum_closed": see _iter_sum (set on entry of every symbolic loop)
+
+
+def _iter_sum(lo, k, delta, iz, pairs):
+    """sum_{t=lo}^{k-1} delta[i:=t]  for a loop summary state(k), lo <= k (k ranges over lo, the iteration variable, its successor, hi).
+    With loop_opts "const_sum_closed" a summand that does not depend on the iteration is summed in closed form:
+    delta * (k - lo)  (constant sum, valid for k >= lo)."""
+    if CONST_SUM_CLOSED[0] and not any(_mentions(t, iz) for t in _terms_of(delta)):
+        d = _subst_val(delta, pairs) if pairs else delta
+        return sv.mul(d, A.simp(sv.sub(k, lo)))
+    return Sum(lo, k, lambda t: _subst_val(delta, pairs + [(iz, sv.znum(t))]))
+
+
+def _summarise_array(sid, shape, dt, idx, prev, postv, iz, lo, hi, hv_consts, hv_funcs, pre_heap, opts=None, nohavoc_post=None):
     """closed form for the content of an array cell after k iterations.
     opts (Unit.loop_opts): "cond_acc": "sigma-ite" -> a conditional accumulation A[g] += d(i) at a loop-invariant position g
     gets the closed form pre + Σ_t ite(idx == g, d(t), 0) (the Σ-nesting then mirrors the loop nest at every level) instead
@@ -892,7 +961,7 @@ def _summarise_array(sid, shape, dt, idx, prev, postv, iz, lo, hi, hv_consts, hv
         def at(k):
             def fn(ix, k=k):
                 pairs = [(a, sv.znum(b)) for a, b in zip(idz, ix)]
-                return sv.add(pre_fn(ix), Sum(lo, k, lambda t: _subst_val(delta, pairs + [(iz, sv.znum(t))])))
+                return sv.add(pre_fn(ix), _iter_sum(lo, k, delta, iz, pairs))
             return Content("arr", A._memo(fn), meta)
         return at
     def _chain_rule():
@@ -1046,6 +1115,29 @@ def _summarise_array(sid, shape, dt, idx, prev, postv, iz, lo, hi, hv_consts, hv
     at4 = _chain_rule()
     if at4 is not None:
         return at4
+    # (5) in-place map of disjoint regions: A[g(i), ...] = f(A[g(i), ...]) — every cell is written by at most one iteration and an
+    # iteration reads only cells no earlier iteration wrote.  Candidate from the dry run on the *un-havocked* pre content:
+    # post = ite(cond(i, idx), val(i, idx; pre content), pre)  =>  state(k) = ite(writer(idx) in [lo,k) and residual, val(writer), pre).
+    # (candidate only: the step obligation checks it, including the "reads no written cell" part)
+    if nohavoc_post is not None:
+        pre_v = pre_fn(idx)
+        dec = _decompose_store(nohavoc_post(idx), pre_v)
+        if dec is not None:
+            cond, val = dec
+            if not any(_contains_any(t, hv_consts, hv_funcs) for t in _terms_of(val) + [cond]):
+                sol = _solve_writer(cond, iz, idz)
+                if sol is not None:
+                    w, residual = sol
+
+                    def at(k):
+                        def fn(ix, k=k):
+                            pairs = [(a, sv.znum(b)) for a, b in zip(idz, ix)]
+                            wk = z3.simplify(z3.substitute(w, *pairs))
+                            c = z3.And(wk >= sv.znum(lo), wk < sv.znum(k), z3.substitute(residual, *pairs))
+                            v = _subst_val(_subst_val(val, [(iz, w)]), pairs)
+                            return ite(sv.wrap(z3.simplify(c)), v, lambda: pre_fn(ix))
+                        return Content("arr", A._memo(fn), meta)
+                    return at
     import os
     if os.environ.get("PYVC_DEBUG_LOOPS"):
         print("LOOP-DEBUG post:", _subst_val(postv, []), "\n  prev:", prev, "\n  iz:", iz)
